@@ -45,6 +45,9 @@ type simStoreCfg struct {
 	// CtxAware: the driver honours its context the way a remote driver does - a call that finds the context done
 	// returns ctx.Err() (before delivering anything, or between two elements). The in-memory driver never does.
 	CtxAware bool
+	// Transparent: lookups are forwarded with the engine's own result channel instead of being collected and re-delivered
+	// (no pacing, no permutation, no mid-stream faults): the real driver's behaviour towards the engine is not shielded.
+	Transparent bool
 	// Cancel cancels the caller's context (fault mode "cancel": the client goes away while call k is in flight).
 	Cancel context.CancelFunc
 }
@@ -352,7 +355,7 @@ func (g *simGraph) Exist(ctx context.Context, t *triple.Triple) (bool, error) {
 	return g.g.Exist(ctx, t)
 }
 
-func collect[T any](call func(chan T) error) ([]T, error) {
+func collect[T any](call func(chan<- T) error) ([]T, error) {
 	ch := make(chan T, 1<<14)
 	if err := call(ch); err != nil {
 		return nil, err
@@ -364,12 +367,23 @@ func collect[T any](call func(chan T) error) ([]T, error) {
 	return out, nil
 }
 
-func stream[T any](ctx context.Context, g *simGraph, method, desc string, lo *storage.LookupOptions, out chan<- T, call func(chan T) error) error {
+func stream[T any](ctx context.Context, g *simGraph, method, desc string, lo *storage.LookupOptions, out chan<- T, call func(chan<- T) error) error {
 	rec, f, cerr := g.s.begin(ctx, method, g.id+" "+desc+" "+lo.String(), true, false)
 	defer g.s.end()
 	if cerr != nil {
 		close(out)
 		return cerr
+	}
+	if g.s.cfg.Transparent {
+		// the wrapped driver streams straight into the engine's channel (and closes it): its own locking, pacing and
+		// channel discipline are what the engine meets; only "fail before the first element" can be injected here
+		if f != nil && (f.Mode == "before" || f.Mode == "after") {
+			g.s.fire(rec, "err_before_first")
+			close(out)
+			return errInjected
+		}
+		rec.Available = -1
+		return call(out)
 	}
 	els, err := collect(call)
 	if err != nil {
@@ -380,51 +394,51 @@ func stream[T any](ctx context.Context, g *simGraph, method, desc string, lo *st
 }
 
 func (g *simGraph) Objects(ctx context.Context, s *node.Node, p *predicate.Predicate, lo *storage.LookupOptions, objs chan<- *triple.Object) error {
-	return stream(ctx, g, "Objects", s.String()+" "+p.String(), lo, objs, func(c chan *triple.Object) error { return g.g.Objects(ctx, s, p, lo, c) })
+	return stream(ctx, g, "Objects", s.String()+" "+p.String(), lo, objs, func(c chan<- *triple.Object) error { return g.g.Objects(ctx, s, p, lo, c) })
 }
 
 func (g *simGraph) Subjects(ctx context.Context, p *predicate.Predicate, o *triple.Object, lo *storage.LookupOptions, subs chan<- *node.Node) error {
-	return stream(ctx, g, "Subjects", p.String()+" "+o.String(), lo, subs, func(c chan *node.Node) error { return g.g.Subjects(ctx, p, o, lo, c) })
+	return stream(ctx, g, "Subjects", p.String()+" "+o.String(), lo, subs, func(c chan<- *node.Node) error { return g.g.Subjects(ctx, p, o, lo, c) })
 }
 
 func (g *simGraph) PredicatesForSubject(ctx context.Context, s *node.Node, lo *storage.LookupOptions, prds chan<- *predicate.Predicate) error {
-	return stream(ctx, g, "PredicatesForSubject", s.String(), lo, prds, func(c chan *predicate.Predicate) error { return g.g.PredicatesForSubject(ctx, s, lo, c) })
+	return stream(ctx, g, "PredicatesForSubject", s.String(), lo, prds, func(c chan<- *predicate.Predicate) error { return g.g.PredicatesForSubject(ctx, s, lo, c) })
 }
 
 func (g *simGraph) PredicatesForObject(ctx context.Context, o *triple.Object, lo *storage.LookupOptions, prds chan<- *predicate.Predicate) error {
-	return stream(ctx, g, "PredicatesForObject", o.String(), lo, prds, func(c chan *predicate.Predicate) error { return g.g.PredicatesForObject(ctx, o, lo, c) })
+	return stream(ctx, g, "PredicatesForObject", o.String(), lo, prds, func(c chan<- *predicate.Predicate) error { return g.g.PredicatesForObject(ctx, o, lo, c) })
 }
 
 func (g *simGraph) PredicatesForSubjectAndObject(ctx context.Context, s *node.Node, o *triple.Object, lo *storage.LookupOptions, prds chan<- *predicate.Predicate) error {
-	return stream(ctx, g, "PredicatesForSubjectAndObject", s.String()+" "+o.String(), lo, prds, func(c chan *predicate.Predicate) error {
+	return stream(ctx, g, "PredicatesForSubjectAndObject", s.String()+" "+o.String(), lo, prds, func(c chan<- *predicate.Predicate) error {
 		return g.g.PredicatesForSubjectAndObject(ctx, s, o, lo, c)
 	})
 }
 
 func (g *simGraph) TriplesForSubject(ctx context.Context, s *node.Node, lo *storage.LookupOptions, trpls chan<- *triple.Triple) error {
-	return stream(ctx, g, "TriplesForSubject", s.String(), lo, trpls, func(c chan *triple.Triple) error { return g.g.TriplesForSubject(ctx, s, lo, c) })
+	return stream(ctx, g, "TriplesForSubject", s.String(), lo, trpls, func(c chan<- *triple.Triple) error { return g.g.TriplesForSubject(ctx, s, lo, c) })
 }
 
 func (g *simGraph) TriplesForPredicate(ctx context.Context, p *predicate.Predicate, lo *storage.LookupOptions, trpls chan<- *triple.Triple) error {
-	return stream(ctx, g, "TriplesForPredicate", p.String(), lo, trpls, func(c chan *triple.Triple) error { return g.g.TriplesForPredicate(ctx, p, lo, c) })
+	return stream(ctx, g, "TriplesForPredicate", p.String(), lo, trpls, func(c chan<- *triple.Triple) error { return g.g.TriplesForPredicate(ctx, p, lo, c) })
 }
 
 func (g *simGraph) TriplesForObject(ctx context.Context, o *triple.Object, lo *storage.LookupOptions, trpls chan<- *triple.Triple) error {
-	return stream(ctx, g, "TriplesForObject", o.String(), lo, trpls, func(c chan *triple.Triple) error { return g.g.TriplesForObject(ctx, o, lo, c) })
+	return stream(ctx, g, "TriplesForObject", o.String(), lo, trpls, func(c chan<- *triple.Triple) error { return g.g.TriplesForObject(ctx, o, lo, c) })
 }
 
 func (g *simGraph) TriplesForSubjectAndPredicate(ctx context.Context, s *node.Node, p *predicate.Predicate, lo *storage.LookupOptions, trpls chan<- *triple.Triple) error {
-	return stream(ctx, g, "TriplesForSubjectAndPredicate", s.String()+" "+p.String(), lo, trpls, func(c chan *triple.Triple) error {
+	return stream(ctx, g, "TriplesForSubjectAndPredicate", s.String()+" "+p.String(), lo, trpls, func(c chan<- *triple.Triple) error {
 		return g.g.TriplesForSubjectAndPredicate(ctx, s, p, lo, c)
 	})
 }
 
 func (g *simGraph) TriplesForPredicateAndObject(ctx context.Context, p *predicate.Predicate, o *triple.Object, lo *storage.LookupOptions, trpls chan<- *triple.Triple) error {
-	return stream(ctx, g, "TriplesForPredicateAndObject", p.String()+" "+o.String(), lo, trpls, func(c chan *triple.Triple) error {
+	return stream(ctx, g, "TriplesForPredicateAndObject", p.String()+" "+o.String(), lo, trpls, func(c chan<- *triple.Triple) error {
 		return g.g.TriplesForPredicateAndObject(ctx, p, o, lo, c)
 	})
 }
 
 func (g *simGraph) Triples(ctx context.Context, lo *storage.LookupOptions, trpls chan<- *triple.Triple) error {
-	return stream(ctx, g, "Triples", "", lo, trpls, func(c chan *triple.Triple) error { return g.g.Triples(ctx, lo, c) })
+	return stream(ctx, g, "Triples", "", lo, trpls, func(c chan<- *triple.Triple) error { return g.g.Triples(ctx, lo, c) })
 }
